@@ -220,12 +220,18 @@ impl<'s> Walker<'s> {
             }
             Expr::Infix { lhs, op, rhs, .. } => {
                 self.info.constructs.push("infix");
-                self.info.idents.push((
-                    lo(op.span),
-                    hi(op.span),
-                    op.value.typ.to_string(),
-                    "operator",
-                ));
+                // judged only if the operator lies between its operands (after a re-parse of a
+                // chain with an unknown operator the operator spans can be out of order: C08)
+                if hi(lhs.span) <= lo(op.span) && hi(op.span) <= lo(rhs.span) {
+                    self.info.idents.push((
+                        lo(op.span),
+                        hi(op.span),
+                        op.value.typ.to_string(),
+                        "operator",
+                    ));
+                } else {
+                    self.info.constructs.push("infix-operator-span-outside-operands");
+                }
                 self.expr(lhs);
                 self.expr(rhs);
             }
